@@ -437,6 +437,7 @@ fn cfg_if_items(m: &syn::Macro) -> Vec<syn::Item> {
 struct FnFinder<'a> {
     want: &'a str,
     found: Option<Value>,
+    skip: usize,
 }
 
 fn sig_json(sig: &syn::Signature) -> Value {
@@ -462,7 +463,7 @@ fn find_fn(items: &[syn::Item], prefix: &str, ff: &mut FnFinder) {
         }
         match it {
             syn::Item::Fn(f) => {
-                if format!("{}{}", prefix, f.sig.ident) == ff.want {
+                if format!("{}{}", prefix, f.sig.ident) == ff.want && { if ff.skip > 0 { ff.skip -= 1; false } else { true } } {
                     ff.found = Some(json!({"sig":sig_json(&f.sig),"body":block_json(&f.block),"attrs":attrs_json(&f.attrs)}));
                 }
             }
@@ -474,7 +475,7 @@ fn find_fn(items: &[syn::Item], prefix: &str, ff: &mut FnFinder) {
                 };
                 for ii in &im.items {
                     if let syn::ImplItem::Fn(f) = ii {
-                        if format!("{}{}", ip, f.sig.ident) == ff.want {
+                        if format!("{}{}", ip, f.sig.ident) == ff.want && { if ff.skip > 0 { ff.skip -= 1; false } else { true } } {
                             ff.found = Some(json!({"sig":sig_json(&f.sig),"body":block_json(&f.block),"attrs":attrs_json(&f.attrs)}));
                             return;
                         }
@@ -541,7 +542,8 @@ fn main() {
                 eprintln!("usage: vfx ast <file> <fn-path>");
                 std::process::exit(2);
             }
-            let mut ff = FnFinder { want: &args[3], found: None };
+            let skip: usize = if args.len() > 4 { args[4].parse().unwrap_or(0) } else { 0 };
+            let mut ff = FnFinder { want: &args[3], found: None, skip };
             find_fn(&file.items, "", &mut ff);
             match ff.found {
                 Some(v) => println!("{}", serde_json::to_string(&v).unwrap()),
